@@ -3,7 +3,8 @@
 
 HAND-KEPT (not regenerated): the normal forms below are what `Model/C17.lean` / `Model/C17Graph.lean` model, statement
 by statement.  `Gen/C17.lean` is regenerated from /repo on every run with the same normalisation (docstrings, comments
-and error messages dropped, local names alpha-renamed `v0, v1, …`, `x.any()` ↦ `np.any(x)`, operands of `|` sorted);
+annotations, `assert`s and error messages dropped; every top-level binding (also a re-binding of a parameter) gets a fresh
+name `v0, v1, …`, private helpers are `_h0, …` with parameters `p0, …`; `x.any()` ↦ `np.any(x)`, operands of `|` sorted);
 `C17_gen_source_shape` (Props) proves regenerated = expected.  Correspondence of the pieces:
 
 * `get_*_starts`            ↦ `changeMask`, `orMask`, `whereTrue … .map (· + 1)`, `startsOf`, `residueMask`, `chainMask`
@@ -41,9 +42,9 @@ def expectedPyBodies : List (String × List String) := [
   ("chain_iter", ["v0 = get_chain_starts(array, add_exclusive_stop=True)", "for v1 in segment_iter(array, v0):", "    yield v1"]),
   ("apply_segment_wise", ["v0 = None", "for v1 in range(len(starts) - 1):", "    v2 = data[starts[v1]:starts[v1 + 1]]", "    if axis is None:", "        v3 = function(v2)", "    else:", "        v3 = function(v2, axis=axis)", "    if v0 is None:", "        if isinstance(v3, np.ndarray):", "            v0 = np.zeros((len(starts) - 1,) + v3.shape, dtype=v3.dtype)", "        else:", "            v0 = np.zeros(len(starts) - 1, dtype=type(v3))", "    v0[v1] = v3", "if v0 is None:", "    return np.zeros(0)", "return v0"]),
   ("spread_segment_wise", ["v0 = starts[1:] - starts[:-1]", "return np.repeat(input_data, v0, axis=0)"]),
-  ("get_segment_masks", ["indices = np.asarray(indices)", "v0 = starts[-1]", "v1 = np.zeros((len(indices), v0), dtype=bool)", "if np.any(indices < 0):", "    raise ValueError", "if np.any(indices >= v0):", "    v2 = np.min(np.where(indices >= v0)[0])", "    raise ValueError", "v3 = np.searchsorted(starts, indices, side='right') - 1", "for v4, v5 in enumerate(v3):", "    v1[v4, starts[v5]:starts[v5 + 1]] = True", "return v1"]),
-  ("get_segment_starts_for", ["indices = np.asarray(indices)", "v0 = starts[-1]", "starts = starts[:-1]", "if np.any(indices < 0):", "    raise ValueError", "if np.any(indices >= v0):", "    v1 = np.min(np.where(indices >= v0)[0])", "    raise ValueError", "v2 = np.searchsorted(starts, indices, side='right') - 1", "return starts[v2]"]),
-  ("get_segment_positions", ["indices = np.asarray(indices)", "v0 = starts[-1]", "starts = starts[:-1]", "if np.any(indices < 0):", "    raise ValueError", "if np.any(indices >= v0):", "    v1 = np.min(np.where(indices >= v0)[0])", "    raise ValueError", "return np.searchsorted(starts, indices, side='right') - 1"]),
+  ("get_segment_masks", ["v0 = np.asarray(indices)", "v1 = starts[-1]", "v2 = np.zeros((len(v0), v1), dtype=bool)", "if np.any(v0 < 0):", "    raise ValueError", "if np.any(v0 >= v1):", "    v3 = np.min(np.where(v0 >= v1)[0])", "    raise ValueError", "v4 = np.searchsorted(starts, v0, side='right') - 1", "for v5, v6 in enumerate(v4):", "    v2[v5, starts[v6]:starts[v6 + 1]] = True", "return v2"]),
+  ("get_segment_starts_for", ["v0 = np.asarray(indices)", "v1 = starts[-1]", "v2 = starts[:-1]", "if np.any(v0 < 0):", "    raise ValueError", "if np.any(v0 >= v1):", "    v3 = np.min(np.where(v0 >= v1)[0])", "    raise ValueError", "v4 = np.searchsorted(v2, v0, side='right') - 1", "return v2[v4]"]),
+  ("get_segment_positions", ["v0 = np.asarray(indices)", "v1 = starts[-1]", "v2 = starts[:-1]", "if np.any(v0 < 0):", "    raise ValueError", "if np.any(v0 >= v1):", "    v3 = np.min(np.where(v0 >= v1)[0])", "    raise ValueError", "return np.searchsorted(v2, v0, side='right') - 1"]),
   ("segment_iter", ["for v0 in range(len(starts) - 1):", "    yield array[..., starts[v0]:starts[v0 + 1]]"]),
   ("get_molecule_indices", ["if isinstance(array, BondList):", "    v0 = array", "elif isinstance(array, (AtomArray, AtomArrayStack)):", "    if array.bonds is None:", "        raise ValueError", "    v0 = array.bonds", "else:", "    raise TypeError", "v1 = []", "v2 = np.zeros(v0.get_atom_count(), dtype=bool)", "while not np.all(v2):", "    v3 = np.argmin(v2)", "    v4 = find_connected(v0, v3)", "    v2[v4] = True", "    v1.append(v4)", "return v1"]),
   ("get_molecule_masks", ["if isinstance(array, BondList):", "    v0 = array", "elif isinstance(array, (AtomArray, AtomArrayStack)):", "    if array.bonds is None:", "        raise ValueError", "    v0 = array.bonds", "else:", "    raise TypeError", "v1 = get_molecule_indices(v0)", "v2 = np.zeros((len(v1), v0.get_atom_count()), dtype=bool)", "for v3 in range(len(v1)):", "    v2[v3, v1[v3]] = True", "return v2"]),
